@@ -76,7 +76,7 @@ def run(res):
     hist = collections.Counter(c["method"] for c in cases)
     res.add_cov(evaluations=len(cases),
                 distinct_nontrivial=len({(c["method"], json.dumps(c.get("args"))) for c in cases if c.get("args")}),
-                rule="25 signatures (0-6 positional parameters, with/without context, results none/value/error/both, raw params, notify) over int/int8/uint16/int64/uint64/"
+                rule="27 signatures (0-8 positional parameters, with/without context, results none/value/error/both, raw params, notify) over int/int8/uint16/int64/uint64/"
                      "float32/float64/string/bool/[]byte/[]int/[]string/[2]int/maps/pointers/nested+embedded structs/interface{}/json.RawMessage/custom (Un)Marshaler/"
                      "custom param encoder+decoder; arguments: 64-bit extremes, 2^53+1, -0, 1e308, denormal, nil vs empty slices and maps, nil pointers, nil interface, "
                      "HTML/control/multi-byte strings, 1400-byte strings; x {http, ws, custom} x 5 formatters (quick: 3 formatters, tuples thinned for the non-default ones; "
